@@ -7,5 +7,7 @@ trap 'git -C /repo checkout -- . ; git -C /repo clean -fdq; "$VERIF_ROOT/scripts
 git -C /repo apply "$d/patch.diff" || { echo "patch does not apply"; exit 2; }
 cd "$VERIF_ROOT"
 out="$(VERIF_NO_EVIDENCE=1 scripts/check.sh "$id" "$tier" --no-evidence 2>&1)"; rc=$?
-echo "$out" | grep -E "^VIOLATION|^KNOWN|quick:|thorough:|BUILD-FAILED|violation key" | head -12
+echo "$out" | grep -aE "BUILD-FAILED|violation key" | head -8
+echo "$out" | grep -aE "^VIOLATION" | head -3
+echo "$out" | grep -aE "^KNOWN|quick:|thorough:" | cut -c1-200 | head -8
 echo "SEEDRUN $(basename "$(dirname "$d")")/$(basename "$d") check=$id tier=$tier exit=$rc"
